@@ -175,8 +175,9 @@ def run_oracle(scn, tr):
     if r["func_count"] != len(tr.calls):
         v.append(viol("result:func-count", f"{r['func_count']} expected {len(tr.calls)}"))
     last_k = tr.probes[-1]["k"] if tr.probes else None
-    if last_k is not None and float(r["mesh_size"]) != 2.0 ** last_k:
-        v.append(viol("result:mesh-size", f"{r['mesh_size']} expected 2^{last_k}"))
+    base = float(scn["options"].get("poll_mesh_multiplier", 2.0))  # the mesh is a power of options['poll_mesh_multiplier']
+    if last_k is not None and not (float(r["mesh_size"]) == base ** last_k or (base != 2.0 and np.isclose(float(r["mesh_size"]), base ** last_k, rtol=1e-12))):
+        v.append(viol("result:mesh-size", f"{r['mesh_size']} expected {base}^{last_k}"))
     x0r = np.asarray(r["x0"], dtype=float).ravel()
     if scn.get("x0") is not None:
         from ..scenario import effective_x0
@@ -317,11 +318,16 @@ def body_container(case):
                 sample=case["ops"][:6])
 
 
+ADV_EXCLUDE = ()
+
+
 def plan(tier):
-    return [("runs", 16), ("container", 4)]
+    return [("runs", 16), ("container", 4), ("advopts", 16)]
 
 
 def run_part(res, part, tier, seed, shard, nshards):
+    if part == "advopts":
+        return runlevel.adv_sweep(res, PROFILE, tier, seed, shard, nshards, body_run, exclude=ADV_EXCLUDE)
     if part == "runs":
         runlevel.sweep(res, PROFILE if tier == "quick" else dict(PROFILE, maxD=5, extra_budget=(20, 250)), N[tier], seed, shard, nshards, body_run)
     else:
@@ -329,14 +335,14 @@ def run_part(res, part, tier, seed, shard, nshards):
 
 
 def minimise(part, tier, sig, case, seed):
-    if part == "runs":
+    if part in ("runs", "advopts"):
         return runlevel.field_minimise(case, sig, body_run, max_runs=12 if tier == "quick" else 40)
     m = engine.hyp_minimise(container_histories(), lambda c: any(engine.signature(x) == sig for x in run_container(c)[0]), 3000, seed)
     return {"case": m or case, "note": "hypothesis shrink" if m else "unminimised"}
 
 
 def replay(part, case):
-    if part == "runs":
+    if part in ("runs", "advopts"):
         return runlevel.replay_body(body_run, case)
     return run_container(case)[0]
 
